@@ -71,6 +71,9 @@ type Walk struct {
 	// its parameters bound to the argument values, and the caller continues once per explored
 	// return with the results bound. Reached then includes the callee's instructions.
 	Follow func(callee *ssa.Function) bool
+	// FollowDeferring lets Follow descend into callees that contain defer statements too (their
+	// deferred calls are then not explored): for rules that only ask what a path can reach.
+	FollowDeferring bool
 	// VisitRaw, when set, is called like Visit but also receives the phi resolutions of the path.
 	VisitRaw func(in ssa.Instruction, env Env, raw map[*ssa.Phi]ssa.Value) bool
 	// Init, when set, is a per-path state threaded through the exploration: it is forked where the
@@ -280,8 +283,9 @@ func (w *Walk) block(b *ssa.BasicBlock, from int, env Env, raw map[*ssa.Phi]ssa.
 				if st != nil {
 					st2 = st.Fork()
 				}
-				w.enter(b, b.Succs[0], env, raw, fr, st)
-				w.enter(b, b.Succs[1], env, raw, fr, st2)
+				envT, envF := w.refine(t.Cond, env)
+				w.enter(b, b.Succs[0], envT, raw, fr, st)
+				w.enter(b, b.Succs[1], envF, raw, fr, st2)
 			}
 			return
 		case *ssa.Jump:
@@ -366,8 +370,45 @@ func (w *Walk) evalD(v ssa.Value, env Env, d int) Val {
 			if u := unspill(x); u != ssa.Value(x) {
 				return w.evalD(u, env, d+1)
 			}
+			// a second load of a local / captured cell whose earlier load was refined on this path
+			// (if *p != nil { use(*p) }), with nothing in between that could write the cell
+			switch x.X.(type) {
+			case *ssa.Alloc, *ssa.FreeVar:
+				for k, val := range env {
+					k2, ok := k.(*ssa.UnOp)
+					if !ok || k2 == x || k2.Op != token.MUL || k2.X != x.X || val.Kind == 0 || k2.Parent() != x.Parent() {
+						continue
+					}
+					if !instrReaches(k2, x) {
+						continue
+					}
+					clean := true
+					for _, b := range x.Parent().Blocks {
+						for _, in := range b.Instrs {
+							writes := false
+							switch y := in.(type) {
+							case *ssa.Store:
+								writes = y.Addr == x.X
+							case ssa.CallInstruction:
+								writes = true
+							}
+							if writes && instrReaches(k2, in) && instrReaches(in, x) {
+								clean = false
+							}
+						}
+					}
+					if clean {
+						return val
+					}
+				}
+			}
 			// a package-level error sentinel (var ErrX = errors.New(...)) is never nil
 			if g, ok := x.X.(*ssa.Global); ok && isErrorType(x.Type()) && strings.HasPrefix(g.Name(), "Err") || ok && isErrorType(x.Type()) && strings.HasPrefix(g.Name(), "err") {
+				return vNil(false)
+			}
+			// exported error variables of packages outside the module (context.Canceled, io.EOF ...):
+			// documented sentinels, never nil
+			if g, ok := x.X.(*ssa.Global); ok && isErrorType(x.Type()) && g.Pkg != nil && !strings.HasPrefix(g.Pkg.Pkg.Path(), modPath) && token.IsExported(g.Name()) {
 				return vNil(false)
 			}
 		}
@@ -526,7 +567,7 @@ func (w *Walk) followCall(call *ssa.Call, b *ssa.BasicBlock, idx int, env Env, r
 			continue
 		}
 		for _, in := range bb.Instrs {
-			if _, isDefer := in.(*ssa.Defer); isDefer {
+			if _, isDefer := in.(*ssa.Defer); isDefer && !w.FollowDeferring {
 				return false // deferred calls reorder effects: keep opaque
 			}
 		}
@@ -593,4 +634,39 @@ func (w *Walk) inProgress(key string) bool {
 	}
 	w.onStack[key]++
 	return w.onStack[key] > 64
+}
+
+// refine: what taking each branch of an undecided condition teaches about the compared value. Only
+// nil tests are refined (x == nil / x != nil): on the branch where x is non-nil (or nil) that fact
+// is recorded for x, so that a later test of the same value - in this function or, through a
+// followed call's result, in its caller - is decided the same way.
+func (w *Walk) refine(cond ssa.Value, env Env) (Env, Env) {
+	bo, ok := cond.(*ssa.BinOp)
+	if !ok || (bo.Op != token.EQL && bo.Op != token.NEQ) {
+		return env, env
+	}
+	var x ssa.Value
+	switch {
+	case isNilConst(bo.Y):
+		x = bo.X
+	case isNilConst(bo.X):
+		x = bo.Y
+	default:
+		return env, env
+	}
+	if _, isK := x.(*ssa.Const); isK {
+		return env, env
+	}
+	mk := func(isNil bool) Env {
+		e := make(Env, len(env)+1)
+		for k, v := range env {
+			e[k] = v
+		}
+		e[x] = vNil(isNil)
+		return e
+	}
+	if bo.Op == token.EQL {
+		return mk(true), mk(false)
+	}
+	return mk(false), mk(true)
 }
